@@ -275,10 +275,46 @@ def wl_config(ctx, rng, case_no):
         expect[name] = G.expected_view(rec)
     inherit = rng.random() < 0.3
     theme = Theme(styles, inherit=inherit)
+    first = _config_roundtrip(ctx, rng, theme, names, expect, inherit, [])
+    if first is None:
+        return
+    wit, text = first
+    if rng.random() < 0.3:
+        # the theme's `styles` mapping is public: a program that edits it after having looked at the config text
+        # (to save it, to show it) gets the text of the EDITED theme the next time it asks
+        ctx.count("mon.config_after_edit")
+        edits = []
+        for _ in range(rng.randint(1, 3)):
+            kind = rng.choice(["replace", "add", "delete"])
+            if kind == "delete" and len(theme.styles) > 1 and names:
+                n = rng.choice(names)
+                if n in theme.styles:
+                    del theme.styles[n]
+                    expect.pop(n, None)
+                    edits.append(["delete", n])
+                continue
+            n = rng.choice(names) if kind == "replace" else rng.choice(["added", "Added.Two", "z9"])
+            rec = G.rand_record(rng, p_link=0.3)
+            theme.styles[n] = G.build(rec)
+            expect[n] = G.expected_view(rec)
+            edits.append([kind, n])
+        names2 = [n for n in expect]
+        second = _config_roundtrip(ctx, rng, theme, names2, expect, inherit, ["after-editing-styles"], edits=edits)
+        if second is None:
+            return
+    ctx.case_done(("cfg", repr(names), text[:400]), True, wit)
+
+
+def _config_roundtrip(ctx, rng, theme, names, expect, inherit, feat0, edits=None):
+    """Theme.config -> Theme.from_file / Theme.read gives a theme with equal styles.  Returns (witness, text), or None
+    when reading back raised (the case is accounted for then)."""
+    from rich.theme import Theme
     text = theme.config
     ctx.count("mon.config_roundtrip")
     wit = {"names": names, "config": text if len(text) < 1500 else text[:1500] + "...", "inherit_defaults": inherit}
-    feat = []
+    if edits:
+        wit["styles_edited_after_first_config_read"] = edits
+    feat = list(feat0)
     if any(n != n.lower() for n in names):
         feat.append("mixed-case-name")
     if "%" in text:
@@ -303,7 +339,7 @@ def wl_config(ctx, rng, case_no):
         ctx.violation("config-does-not-read-back:%s:%s" % (type(e).__name__, "+".join(feat) or "plain"),
                       dict(wit, error=repr(e)))
         ctx.case_done(("cfg", repr(wit)), True, wit)
-        return
+        return None
     got = {k: G.view(v) for k, v in back.styles.items()}
     want = {k: G.view(v) for k, v in theme.styles.items()}
     if got != want:
@@ -314,8 +350,9 @@ def wl_config(ctx, rng, case_no):
                       dict(wit, missing=missing[:5], extra=extra[:5]))
     for n in names:
         if got.get(n) is not None and got[n] != expect[n]:
-            ctx.violation("config-roundtrip-style-wrong", dict(wit, name=n, got=got[n], want=expect[n]))
-    ctx.case_done(("cfg", repr(names), text[:400]), True, wit)
+            ctx.violation("config-roundtrip-style-wrong" + (":" + "+".join(feat0) if feat0 else ""),
+                          dict(wit, name=n, got=got[n], want=expect[n]))
+    return wit, text
 
 
 def workloads(tier):
